@@ -276,7 +276,7 @@ fn main_check(ctx: &Ctx) -> Outcome {
 
     // (b) WinconBytes over fragments
     let frags: Vec<&[u8]> = vec![
-        b"\x1b", b"[", b"0", b"1", b"3", b"8", b";", b":", b"5", b"2", b"m", b"a", b"\n", b"\xc3", b"\xa9", b"H", b"]", b"\x07",
+        b"\x1b", b"[", b"0", b"1", b"3", b"8", b";", b":", b"5", b"2", b"m", b"a", b"\n", b"\xc3", b"\xa9", b"H", b"]", b"\x07", b"c",
         b"\x1b[1", b";31m", b"\x1b[38;5;", b"38:2:1:2:3m",
     ];
     let mut wsys = WinconSys { label: "WinconBytes::extract_next/fragments".into(), tokens: vec![], guards: vec![] };
@@ -290,117 +290,122 @@ fn main_check(ctx: &Ctx) -> Outcome {
     out.findings.extend(bfs_findings(&rep, clause_of));
 
     // (c) all partitions of short inputs, differential against the one-shot result
-    let focus: Vec<&[u8]> = vec![b"a", b"\x1b", b"[", b"1", b"m", b"\n", b"\xc3", b"\xa9", b";", b"]", b"\x07"];
-    let l = if quick { 6 } else { 7 };
-    let inputs: Vec<Vec<usize>> = strings_upto(focus.len(), l).filter(|c| !c.is_empty()).collect();
+    // two alphabets: single bytes (sequences are assembled byte by byte) and whole sequences / characters as tokens
+    // (longer inputs: styled text, then a non-SGR sequence, then text, all inside one chunk or cut anywhere between)
+    let focus_bytes: Vec<&[u8]> = vec![b"a", b"\x1b", b"[", b"1", b"m", b"\n", b"\xc3", b"\xa9", b";", b"]", b"\x07", b"c"];
+    let focus_macro: Vec<&[u8]> = vec![b"a", "\u{e9}".as_bytes(), b"\n", b"\x1b[1m", b"\x1b[31m", b"\x1b[0m", b"\x1b[4:3m", b"\x1bc", b"\x1b[H", b"\x1b]0;t\x07", b"\x1b[38;5;", b"9m"];
     let evals = AtomicU64::new(0);
     let viol = std::sync::Mutex::new(Vec::<Finding>::new());
     let distinct = std::sync::Mutex::new(std::collections::HashSet::<u64>::new());
-    inputs.par_iter().for_each(|inp| {
-        let toks: Vec<&[u8]> = inp.iter().map(|&i| focus[i]).collect();
-        let whole: Vec<u8> = toks.concat();
-        let r = guard(|| {
-            // one-shot references
-            let one_bytes: Vec<u8> = StripBytes::new().strip_next(&whole).collect::<Vec<_>>().concat();
-            let mut s = anstream::StripStream::new(Vec::new());
-            s.write_all(&whole).unwrap();
-            let one_stream = s.into_inner();
-            let one_runs = merge_real(WinconBytes::new().extract_next(&whole).collect());
-            let whole_str = std::str::from_utf8(&whole).ok();
-            let one_str: Option<String> = whole_str.map(|w| StripStr::new().strip_next(w).collect::<Vec<_>>().concat());
-            let mut h = vec![hash_of(&one_bytes)];
-            for part in partitions(toks.len()) {
-                evals.fetch_add(1, Ordering::Relaxed);
-                let chunks: Vec<Vec<u8>> = part.iter().map(|&(a, b)| toks[a..b].concat()).collect();
-                let mut sb = StripBytes::new();
-                let mut got = vec![];
-                for c in &chunks {
-                    for p in sb.strip_next(c) {
-                        got.extend_from_slice(p);
-                    }
-                }
-                if got != one_bytes {
-                    return Err(("StripBytes::strip_next", format!("partition {:?} of {} gives {} but one-shot gives {}", chunks.iter().map(|c| show(c)).collect::<Vec<_>>(), show(&whole), show(&got), show(&one_bytes))));
-                }
-                // the one-shot iterator fed slice after slice (StrippedBytes::extend)
-                let mut it = anstream::adapter::strip_bytes(&chunks[0]);
-                let mut got: Vec<u8> = vec![];
-                for (ci, c) in chunks.iter().enumerate() {
-                    if ci > 0 {
-                        if !it.is_empty() {
-                            return Err(("StrippedBytes::extend", format!("iterator over chunk {} of {:?} reports bytes left after being drained", ci - 1, chunks.iter().map(|c| show(c)).collect::<Vec<_>>())));
+    for (alphabet_name, focus, l) in [("single bytes", focus_bytes, if quick { 6 } else { 7 }), ("whole sequences", focus_macro, if quick { 5 } else { 6 })] {
+        let inputs: Vec<Vec<usize>> = strings_upto(focus.len(), l).filter(|c| !c.is_empty()).collect();
+        inputs.par_iter().for_each(|inp| {
+            let toks: Vec<&[u8]> = inp.iter().map(|&i| focus[i]).collect();
+            let whole: Vec<u8> = toks.concat();
+            let r = guard(|| {
+                // one-shot references
+                let one_bytes: Vec<u8> = StripBytes::new().strip_next(&whole).collect::<Vec<_>>().concat();
+                let mut s = anstream::StripStream::new(Vec::new());
+                s.write_all(&whole).unwrap();
+                let one_stream = s.into_inner();
+                let one_runs = merge_real(WinconBytes::new().extract_next(&whole).collect());
+                let whole_str = std::str::from_utf8(&whole).ok();
+                let one_str: Option<String> = whole_str.map(|w| StripStr::new().strip_next(w).collect::<Vec<_>>().concat());
+                let mut h = vec![hash_of(&one_bytes)];
+                for part in partitions(toks.len()) {
+                    evals.fetch_add(1, Ordering::Relaxed);
+                    let chunks: Vec<Vec<u8>> = part.iter().map(|&(a, b)| toks[a..b].concat()).collect();
+                    let mut sb = StripBytes::new();
+                    let mut got = vec![];
+                    for c in &chunks {
+                        for p in sb.strip_next(c) {
+                            got.extend_from_slice(p);
                         }
-                        it.extend(c);
                     }
-                    for p in it.by_ref() {
-                        got.extend_from_slice(p);
+                    if got != one_bytes {
+                        return Err(("StripBytes::strip_next", format!("partition {:?} of {} gives {} but one-shot gives {}", chunks.iter().map(|c| show(c)).collect::<Vec<_>>(), show(&whole), show(&got), show(&one_bytes))));
                     }
-                }
-                if got != one_bytes {
-                    return Err(("StrippedBytes::extend", format!("partition {:?} of {} gives {} but one-shot gives {}", chunks.iter().map(|c| show(c)).collect::<Vec<_>>(), show(&whole), show(&got), show(&one_bytes))));
-                }
-                let mut ss = anstream::StripStream::new(Vec::new());
-                for c in &chunks {
-                    ss.write_all(c).unwrap();
-                }
-                let got = ss.into_inner();
-                if got != one_stream {
-                    return Err(("StripStream::write_all", format!("partition {:?} of {} gives {} but one-shot gives {}", chunks.iter().map(|c| show(c)).collect::<Vec<_>>(), show(&whole), show(&got), show(&one_stream))));
-                }
-                let mut wb = WinconBytes::new();
-                let mut runs = vec![];
-                for c in &chunks {
-                    runs.extend(wb.extract_next(c));
-                }
-                let runs = merge_real(runs);
-                if runs != one_runs {
-                    return Err(("WinconBytes::extract_next", format!("partition {:?} of {} gives runs {:?} but one-shot gives {:?}", chunks.iter().map(|c| show(c)).collect::<Vec<_>>(), show(&whole), runs, one_runs)));
-                }
-                if let Some(one_str) = &one_str {
-                    // text API: only partitions whose chunks are all valid UTF-8
-                    if chunks.iter().all(|c| std::str::from_utf8(c).is_ok()) {
-                        let mut st = StripStr::new();
-                        let mut got = String::new();
-                        for c in &chunks {
-                            for p in st.strip_next(std::str::from_utf8(c).unwrap()) {
-                                got.push_str(p);
+                    // the one-shot iterator fed slice after slice (StrippedBytes::extend)
+                    let mut it = anstream::adapter::strip_bytes(&chunks[0]);
+                    let mut got: Vec<u8> = vec![];
+                    for (ci, c) in chunks.iter().enumerate() {
+                        if ci > 0 {
+                            if !it.is_empty() {
+                                return Err(("StrippedBytes::extend", format!("iterator over chunk {} of {:?} reports bytes left after being drained", ci - 1, chunks.iter().map(|c| show(c)).collect::<Vec<_>>())));
+                            }
+                            it.extend(c);
+                        }
+                        for p in it.by_ref() {
+                            got.extend_from_slice(p);
+                        }
+                    }
+                    if got != one_bytes {
+                        return Err(("StrippedBytes::extend", format!("partition {:?} of {} gives {} but one-shot gives {}", chunks.iter().map(|c| show(c)).collect::<Vec<_>>(), show(&whole), show(&got), show(&one_bytes))));
+                    }
+                    let mut ss = anstream::StripStream::new(Vec::new());
+                    for c in &chunks {
+                        ss.write_all(c).unwrap();
+                    }
+                    let got = ss.into_inner();
+                    if got != one_stream {
+                        return Err(("StripStream::write_all", format!("partition {:?} of {} gives {} but one-shot gives {}", chunks.iter().map(|c| show(c)).collect::<Vec<_>>(), show(&whole), show(&got), show(&one_stream))));
+                    }
+                    let mut wb = WinconBytes::new();
+                    let mut runs = vec![];
+                    for c in &chunks {
+                        runs.extend(wb.extract_next(c));
+                    }
+                    let runs = merge_real(runs);
+                    if runs != one_runs {
+                        return Err(("WinconBytes::extract_next", format!("partition {:?} of {} gives runs {:?} but one-shot gives {:?}", chunks.iter().map(|c| show(c)).collect::<Vec<_>>(), show(&whole), runs, one_runs)));
+                    }
+                    if let Some(one_str) = &one_str {
+                        // text API: only partitions whose chunks are all valid UTF-8
+                        if chunks.iter().all(|c| std::str::from_utf8(c).is_ok()) {
+                            let mut st = StripStr::new();
+                            let mut got = String::new();
+                            for c in &chunks {
+                                for p in st.strip_next(std::str::from_utf8(c).unwrap()) {
+                                    got.push_str(p);
+                                }
+                            }
+                            if &got != one_str {
+                                return Err(("StripStr::strip_next", format!("partition {:?} of {} gives {:?} but one-shot gives {:?}", chunks.iter().map(|c| show(c)).collect::<Vec<_>>(), show(&whole), got, one_str)));
                             }
                         }
-                        if &got != one_str {
-                            return Err(("StripStr::strip_next", format!("partition {:?} of {} gives {:?} but one-shot gives {:?}", chunks.iter().map(|c| show(c)).collect::<Vec<_>>(), show(&whole), got, one_str)));
-                        }
+                    }
+                    h.push(hash_of(&chunks));
+                }
+                Ok(h)
+            });
+            let r = match r {
+                Ok(r) => r,
+                Err(p) => Err(("panic", p)),
+            };
+            match r {
+                Ok(h) => {
+                    distinct.lock().unwrap().insert(h[0]);
+                }
+                Err((sys, m)) => {
+                    let mut v = viol.lock().unwrap();
+                    if v.len() < 100 {
+                        v.push(Finding {
+                            system: format!("{sys}/partitions"),
+                            clause: "chunking-differs".into(),
+                            case: vec![hex(&whole)],
+                            message: m,
+                            replay: json!({"kind":"partitions","tokens": toks.iter().map(|t| hex(t)).collect::<Vec<_>>()}),
+                        });
                     }
                 }
-                h.push(hash_of(&chunks));
             }
-            Ok(h)
         });
-        let r = match r {
-            Ok(r) => r,
-            Err(p) => Err(("panic", p)),
-        };
-        match r {
-            Ok(h) => {
-                distinct.lock().unwrap().insert(h[0]);
-            }
-            Err((sys, m)) => {
-                let mut v = viol.lock().unwrap();
-                if v.len() < 100 {
-                    v.push(Finding {
-                        system: format!("{sys}/partitions"),
-                        clause: "chunking-differs".into(),
-                        case: vec![hex(&whole)],
-                        message: m,
-                        replay: json!({"kind":"partitions","tokens": toks.iter().map(|t| hex(t)).collect::<Vec<_>>()}),
-                    });
-                }
-            }
-        }
-    });
+        out.push_part(json!({"system":"all partitions vs one-shot (StripBytes, StrippedBytes::extend, StripStream, WinconBytes, StripStr)","alphabet":alphabet_name,"inputs":inputs.len(),"max_tokens":l,"focus_alphabet":focus.len()}));
+
+    }
     let mut v = viol.into_inner().unwrap();
     v.sort_by_key(|f| (f.case[0].len(), f.key()));
     out.findings.extend(v);
-    out.push_part(json!({"system":"all partitions vs one-shot (StripBytes, StrippedBytes::extend, StripStream, WinconBytes, StripStr)","inputs":inputs.len(),"max_tokens":l,"focus_alphabet":focus.len()}));
 
     // (d) every 2-byte chunk over all 256 byte values, from every class-reachable adapter state: as one chunk and as
     //     two chunks (output and end state must agree) - for StripBytes and WinconBytes
